@@ -19,6 +19,8 @@
 // logging and a backlog is queued another thread calls resetOwnThread(); the producers go on logging during the drain and
 // after it (synchronous again).  Handshakes only (no timing assumptions): phase 1 free, phase 2 starts when the reset is
 // about to be called, phase 3 starts when resetOwnThread() has returned.
+// "twopipes": two bare pipelines A and B, each built with addSeqNumber() + its own sink; even producers log through A, odd ones
+// through B; the check splits the trace by pipeline and requires consecutive numbers 0,1,2,... in delivery order PER PIPELINE.
 // slow-handler reset modes ("resetslow", "bareresetslow"): the pipeline starts asynchronous; every producer logs its first half, then
 // producer 0 logs the MARKER (its message number per/2), the last queued message, whose handler is slow: it sleeps <stall ms> and
 // then waits (at most 3 s) until a logging call made AFTER the reset began has returned.  As soon as the worker is inside that
@@ -304,6 +306,21 @@ int main(int argc, char **argv)
                     }
                     LogMessage m((i & 1) ? QtCriticalMsg : QtWarningMsg, ctx, QString::number(p) + QLatin1Char(' ') + QString::number(i));
                     h.process(m);
+                });
+            for (auto &t : ths) t.join();
+        } else if (mode == "twopipes") {
+            // TWO pipeline objects in one process, each configured through the fluent helper addSeqNumber() and each with its own
+            // collecting sink; producers with an even number log through pipeline A, the others through pipeline B (different
+            // locks: runs of A and B may overlap, runs of one pipeline may not).  Each pipeline numbers ITS OWN deliveries 0,1,2,...
+            OwnThreadHandler<SimplePipeline> a, b;
+            a.addSeqNumber(); b.addSeqNumber();
+            a << QSharedPointer<RandomWork>::create() << QSharedPointer<EnterExitSink>::create();
+            b << QSharedPointer<RandomWork>::create() << QSharedPointer<EnterExitSink>::create();
+            for (int p = 0; p < n; p++)
+                ths.emplace_back(producer, p, [&a, &b](int p, int i) {
+                    QMessageLogContext ctx("twopipes.cpp", i, "void twopipes()", "default");
+                    LogMessage m((i & 1) ? QtWarningMsg : QtInfoMsg, ctx, QString::number(p) + QLatin1Char(' ') + QString::number(i));
+                    if (p & 1) b.process(m); else a.process(m);
                 });
             for (auto &t : ths) t.join();
         } else if (mode == "pattern") {
